@@ -380,7 +380,7 @@ def _history_st():
 
 
 def sub_random(ctx, shard, n):
-    ctx.given("history", check_history, _history_st(), 400 if ctx.quick else 2500)
+    ctx.given("history", check_history, _history_st(), 400 if ctx.quick else 6000)
 
 
 def sub_fills(ctx, shard, n):
@@ -420,7 +420,7 @@ def sub_from_chords(ctx, shard, n):
         {"chords": ["C", "F", "G"], "duration": 2, "meter": [3, 4]},
         {"chords": [None, None, "C"], "duration": 1, "meter": [5, 4]},
     ])
-    ctx.given("from_chords", check_from_chords, strat, 300 if ctx.quick else 5000)
+    ctx.given("from_chords", check_from_chords, strat, 300 if ctx.quick else 10000)
 
 
 def _comp_st():
